@@ -15,6 +15,12 @@ PINS = {
     "CxxParser._consume_attribute_specifier_seq": "99384e37275aa424cee9d8af",
     "CxxParser._parse_enum_decl": "f8fc7a84aca84217b3ce8d93",
     "CxxParser._finish_class_or_enum": "99e950d072e8dec69dc81b45",
+    "CxxParser._parse_declarations": "af253c9cb8607bfedc3d6df9",
+    "CxxParser._parse_decl": "c1738e4cc791a6362a5d23e6",
+    "CxxParser._parse_function": "9be2cc83cdcd42156746acb3",
+    "CxxParser._parse_field": "1185f75a2b4379ede0104654",
+    "CxxParser._parse_template": "be0af5243218af844a21ffd8",
+    "CxxParser._parse_concept": "0400b1ee52892a9ba78c885f",
 }
 
 
